@@ -192,6 +192,126 @@ theorem slow_reads_crlf_block (p tail : Bytes) (hp : ∀ c ∈ p, isBase c = tru
   have hl := originStream_length p h
   simp only [List.take_left' hl, List.drop_left' hl]
 
+/-! ### the exact bound
+
+The guard `< 10^9` above is a round number.  The exact condition under which every line index
+`%9d` prints has nine columns is "the index of the LAST line is below 10^9", i.e. at most
+`1000000020` residues — the constant `maxOriginResidues` of the reader's length guard (/repo
+be672b0; `Gts.Bridge.maxOriginResidues_index`).  The statements above hold up to that bound; they
+are repeated here with the hypothesis `≤ 1000000020` (each implies its `< 10^9` version). -/
+
+/-- `block_length` up to the exact bound: `NewOrigin` does not panic and writes exactly
+`toOriginLength (len p)` bytes for every residue string of at most 1000000020 bytes. -/
+theorem block_length_exact (p : Bytes) (h : p.length ≤ 1000000020) :
+    ∃ b, newOrigin p = .ok b ∧ (b.length : Int) = toOriginLength (p.length : Int) :=
+  ⟨originStream p, newOrigin_ok_le p h, by rw [originStream_length_le p h, toOriginLength_nat]⟩
+
+/-- `bytes_roundtrip` up to the exact bound: residues → block → residues is the identity. -/
+theorem bytes_roundtrip_exact (p : Bytes) (h : p.length ≤ 1000000020) :
+    ∃ b, newOrigin p = .ok b ∧ originBytes b = .ok p :=
+  ⟨originStream p, newOrigin_ok_le p h, originBytes_originStream_le p h⟩
+
+/-- `len_without_decoding` up to the exact bound: `Origin.Len` on the unparsed block is the
+number of residues, and decoding gives them back. -/
+theorem len_without_decoding_exact (p : Bytes) (h : p.length ≤ 1000000020) :
+    ∃ b, newOrigin p = .ok b ∧ originLen b = (p.length : Int) ∧ originBytes b = .ok p := by
+  refine ⟨originStream p, newOrigin_ok_le p h, ?_, originBytes_originStream_le p h⟩
+  unfold originLen
+  rw [originStream_length_le p h]
+  split
+  · rename_i h0
+    have : p.length = 0 := (tl_zero_iff p.length).mp (by omega)
+    omega
+  · exact fromOriginLength_tl _
+
+/-- `fast_imp_slow` up to the exact bound: whatever the fast path accepts, the slow path accepts
+too and hands over the same bytes, leaving the same rest — every declared length the reader's
+guard lets through. -/
+theorem fast_imp_slow_exact (b : Bytes) (L : Nat) (hL : L ≤ 1000000020)
+    (h : validateOrigin b (L : Int) = .ok ()) :
+    slowOrigin b (L : Int) =
+      .ok (b.take (toOriginLength (L : Int)).toNat, b.drop (toOriginLength (L : Int)).toNat) := by
+  rw [toNat_tl]; exact Gts.Origin.fast_imp_slow_le b L hL h
+
+/-- `slow_token_valid` up to the exact bound: what the slow path returns has the declared size
+and is accepted by the fast path (followed by anything). -/
+theorem slow_token_valid_exact (st : Bytes) (L : Nat) (out rest : Bytes) (hL : L ≤ 1000000020)
+    (h : slowOrigin st (L : Int) = .ok (out, rest)) :
+    (out.length : Int) = toOriginLength (L : Int) ∧
+      ∀ tail, validateOrigin (out ++ tail) (L : Int) = .ok () := by
+  obtain ⟨h1, h2⟩ := Gts.Origin.slow_token_valid_le st L out rest hL h
+  exact ⟨by rw [h1, toOriginLength_nat], h2⟩
+
+/-- `validate_accepts_prefix` up to the exact bound: the fast path accepts a written block of
+printable residues followed by anything. -/
+theorem validate_accepts_prefix_exact (p tail : Bytes) (hp : ∀ c ∈ p, isBase c = true)
+    (h : p.length ≤ 1000000020) :
+    validateOrigin (originStream p ++ tail) (p.length : Int) = .ok () := by
+  have h1 := validateOrigin_originStream p hp
+  have h2 := Gts.Origin.fast_imp_slow_le _ _ h h1
+  have h3 := (Gts.Origin.slow_token_valid_le _ _ _ _ h h2).2 tail
+  have e : (originStream p).take (tl p.length) = originStream p :=
+    List.take_of_length_le (by rw [originStream_length_le p h]; omega)
+  rw [e] at h3; exact h3
+
+/-- `slow_never_panics` up to the exact bound: the slow path never panics for any declared
+length the reader's guard lets through (with `Gts.Bridge.originParser_gen`: for NO length does the
+reader reach the slow path beyond it). -/
+theorem slow_never_panics_exact (st : Bytes) (L : Nat) (hL : L ≤ 1000000020) :
+    slowOrigin st (L : Int) ≠ .error .panic :=
+  slowOrigin_ne_panic_le st L hL
+
+/-- `slow_imp_fast_or_blanks` up to the exact bound. -/
+theorem slow_imp_fast_or_blanks_exact (b : Bytes) (L : Nat) (hL : L ≤ 1000000020) (hcr : noCR b)
+    (hlen : (toOriginLength (L : Int)).toNat ≤ b.length)
+    (h : ∃ o, slowOrigin b (L : Int) = .ok o) :
+    validateOrigin b (L : Int) = .ok () ∨ trailingBlank b = true := by
+  cases hb : trailingBlank b with
+  | true => exact Or.inr rfl
+  | false =>
+    obtain ⟨o, ho⟩ := h
+    rw [toNat_tl] at hlen
+    exact Or.inl (slow_imp_fast_le b L o hL hcr hb hlen ho)
+
+/-- `fast_slow_equiv` up to the exact bound: on CR-free input without trailing blanks that is at
+least as long as the declared block, the two paths accept the same input and hand over the same
+bytes — every declared length the reader's guard lets through. -/
+theorem fast_slow_equiv_exact (b : Bytes) (L : Nat) (hL : L ≤ 1000000020) (hcr : noCR b)
+    (hb : noTrailingBlank b) (hlen : (toOriginLength (L : Int)).toNat ≤ b.length) :
+    (validateOrigin b (L : Int) = .ok () ↔ ∃ o, slowOrigin b (L : Int) = .ok o) ∧
+    ∀ o, slowOrigin b (L : Int) = .ok o →
+      o = (b.take (toOriginLength (L : Int)).toNat, b.drop (toOriginLength (L : Int)).toNat) := by
+  have hlen' := hlen
+  rw [toNat_tl] at hlen'
+  refine ⟨⟨fun h => ⟨_, Gts.Origin.fast_imp_slow_le b L hL h⟩,
+    fun ⟨o, ho⟩ => slow_imp_fast_le b L o hL hcr hb hlen' ho⟩, fun o ho => ?_⟩
+  have hv := slow_imp_fast_le b L o hL hcr hb hlen' ho
+  have := fast_imp_slow_exact b L hL hv
+  rw [ho] at this
+  exact Except.ok.inj this
+
+/-- `slow_reads_crlf_block` up to the exact bound. -/
+theorem slow_reads_crlf_block_exact (p tail : Bytes) (hp : ∀ c ∈ p, isBase c = true)
+    (h : p.length ≤ 1000000020) (ht : noCR tail) :
+    slowOrigin (crlf (originStream p ++ tail)) (p.length : Int) = .ok (originStream p, crlf tail) := by
+  have hcr : noCR (originStream p ++ tail) := by
+    intro c hc; rcases List.mem_append.mp hc with h1 | h1
+    · exact originStream_noCR p hp c h1
+    · exact ht c h1
+  rw [slowOrigin_crlf _ _ hcr]
+  have h1 := validate_accepts_prefix_exact p tail hp h
+  rw [Gts.Origin.fast_imp_slow_le _ _ h h1]
+  have hl := originStream_length_le p h
+  simp only [List.take_left' hl, List.drop_left' hl]
+
+/-- non-vacuity of the `_exact` statements: the 13-residue sequence meets their hypotheses, and
+they reach lengths the `< 10^9` versions do not (10^9 itself, and the bound). -/
+example :
+    ([97,99,103,116,97,99,103,116,97,99,103,116,110] : Bytes).length ≤ 1000000020
+    ∧ (∀ c ∈ ([97,99,103,116,97,99,103,116,97,99,103,116,110] : Bytes), isBase c = true)
+    ∧ (10 ^ 9 : Nat) ≤ 1000000020 ∧ ¬ ((10 ^ 9 : Nat) < 10 ^ 9) ∧ (1000000020 : Nat) ≤ 1000000020 := by
+  decide
+
 /-! ### non-vacuity -/
 
 /-- a concrete 13-residue sequence: the block, its size, the round trip, both reader paths -/
